@@ -5,7 +5,7 @@ from fractions import Fraction as F
 
 from .base import Monitor, unrank_sequence, sequence_space
 from .plugin_hist import EV_START, EV_END, EV_FILE, EV_NEUTRAL
-from ..harness import Plugin, digest
+from ..harness import Plugin, digest, setting_bool, RAW_BOOLS
 
 EVENT = "ExcludedRegionsChanged"
 
@@ -86,13 +86,20 @@ class C13(Monitor):
         steps = []
         ids = []
         n = 0
-        settings = dict(clear=rnd.random() < 0.5, shrink=rnd.random() < 0.5)
+        settings = dict(clear=rnd.random() < 0.5, shrink=rnd.random() < 0.5) if rnd.random() < 0.8 else \
+            dict(clear=rnd.choice(RAW_BOOLS), shrink=rnd.choice(RAW_BOOLS))
+        first = dict(settings)
         for _ in range(rnd.randint(8, 45)):
             t = rnd.random()
             anon = rnd.random() < 0.12
             if t < 0.25:
                 n += 1
                 rid = rnd.choice(["id%d" % n, "id%d" % n, None, n, "", 0])      # falsy but non-null ids are ids too
+                if ids and rnd.random() < 0.15:
+                    # an id that differs from an existing one in letter case / type only: a different id
+                    other = rnd.choice(ids)
+                    rid = (other.upper() if other.upper() != other else other.title()) if isinstance(other, str) and other \
+                        else (str(other) if isinstance(other, int) else "ID%d" % n)
                 steps.append(["api", "addExcludeRegion", payload_of(rand_shape(rnd), rid), anon])
                 if rid is not None and not anon:
                     ids.append(rid)
@@ -138,11 +145,13 @@ class C13(Monitor):
             elif t < 0.98:
                 steps.append(["at", "ExcludeRegion", rnd.choice(["off", "on", "disable"])])
             else:
-                settings = dict(clear=rnd.random() < 0.5, shrink=rnd.random() < 0.5)
+                settings = dict(clear=rnd.choice(RAW_BOOLS), shrink=rnd.choice(RAW_BOOLS))
+                if rnd.random() < 0.2:
+                    settings["malformed"] = rnd.choice(["at-regex", "ext-key"])
                 steps.append(["settings", dict(settings)])
             if rnd.random() < 0.2:
                 steps.append(["get"])
-        return dict(settings=dict(settings), steps=steps)
+        return dict(settings=first, steps=steps)
 
     def check_case(self, case):
         stats = collections.Counter()
@@ -155,8 +164,8 @@ class C13(Monitor):
         p.pm.take()
         model = []
         active = False
-        clear = bool(case["settings"].get("clear"))
-        shrink = bool(case["settings"].get("shrink"))
+        clear = setting_bool(case["settings"].get("clear"))
+        shrink = setting_bool(case["settings"].get("shrink"))
         rejections = set()
 
         def bad(i, st, kind, detail):
@@ -236,7 +245,8 @@ class C13(Monitor):
                     model = []
             elif st[0] == "settings":
                 p.write_settings(st[1])
-                clear, shrink = bool(st[1].get("clear")), bool(st[1].get("shrink"))
+                clear, shrink = setting_bool(st[1].get("clear")), setting_bool(st[1].get("shrink"))
+                stats["c13_settings_saves"] += 1
             elif st[0] == "at":
                 p.at(st[1], st[2])
             elif st[0] == "get":
@@ -286,6 +296,19 @@ def finite_shape(shape):
 def tweak(rnd, shape):
     """New geometry derived from an old region: grown/shrunk/shifted by {0, +-ulp-ish, +-1e-9, +-1e-3, +-1}, or another type."""
     new = tweak_finite(rnd, shape)
+    if rnd.random() < 0.05 and finite_shape(shape):
+        # legal but extreme numbers (JSON carries them): a region of astronomic size far away does not cover the old one, one
+        # around it does; squares of these magnitudes overflow
+        m = rnd.choice([1e150, 1.5e154, 1e200, 1e300])
+        cx, cy = (shape[1][0], shape[1][1])
+        q = rnd.random()
+        if q < 0.4:
+            return ("circ", [cx + rnd.choice([3.0, -3.0, 2.0]) * m, cy, m])
+        if q < 0.6:
+            return ("circ", [cx, cy, m])
+        if q < 0.8:
+            return ("rect", [cx + m, cy - m, cx + 3 * m, cy + m])
+        return ("rect", [-m, -m, m, m])
     if rnd.random() < 0.06:
         # the API does not validate numbers: NaN compares false with everything, infinities are legal floats
         p = list(new[1])
@@ -390,7 +413,8 @@ class C12(Monitor):
         steps = []
         shapes = {}
         n = 0
-        shrink = rnd.random() < 0.15
+        shrink = (rnd.random() < 0.15) if rnd.random() < 0.8 else rnd.choice(RAW_BOOLS)
+        clear = rnd.random() < 0.4
         for _ in range(rnd.randint(1, 3)):
             n += 1
             shapes["r%d" % n] = rand_shape(rnd)
@@ -409,12 +433,19 @@ class C12(Monitor):
                 n += 1
                 shapes["r%d" % n] = rand_shape(rnd)
                 steps.append(["api", "addExcludeRegion", payload_of(shapes["r%d" % n], "r%d" % n)])
-            elif t < 0.96:
+            elif t < 0.95:
                 steps.append(["event", rnd.choice(["PrintPaused", "PrintResumed"])])
+            elif t < 0.975:
+                # the setting changes during the print (any stored spelling of on/off; sometimes the same save carries a row
+                # the plugin cannot convert)
+                st = dict(shrink=rnd.choice(RAW_BOOLS), clear=clear)
+                if rnd.random() < 0.3:
+                    st["malformed"] = rnd.choice(["at-regex", "ext-key"])
+                steps.append(["settings", st])
             else:
                 steps.append(["event", rnd.choice(EV_END)])
                 steps.append(["event", EV_START])
-        return dict(settings=dict(shrink=shrink, clear=rnd.random() < 0.4), steps=steps)
+        return dict(settings=dict(shrink=shrink, clear=clear), steps=steps)
 
     @staticmethod
     def shapes_of(regions):
@@ -430,7 +461,7 @@ class C12(Monitor):
         stats = collections.Counter()
         v = []
         p = Plugin(case["settings"])
-        shrink = bool(case["settings"].get("shrink"))
+        shrink = setting_bool(case["settings"].get("shrink"))
         active = False
         probes = []
         accepted = refused = 0
@@ -444,6 +475,11 @@ class C12(Monitor):
                     active = True
                 elif st[1] in EV_END:
                     active = False
+                continue
+            if st[0] == "settings":
+                p.write_settings(st[1])
+                shrink = setting_bool(st[1].get("shrink"))
+                stats["c12_settings_saves"] += 1
                 continue
             cmd, data = st[1], st[2]
             before = p.regions()
